@@ -42,20 +42,17 @@ struct Model {
     n: usize,
 }
 
-/// builds buffer and model by `n` roll_forward calls, n symbolic 0..=3, each point a symbolic alphabet choice
-fn build(maxn: usize) -> (RollbackBuffer, Model) {
+/// builds buffer and model by `n` roll_forward calls (n concrete per harness: a symbolic number of push_back calls gave no
+/// verdict in 400 s), each point a symbolic alphabet choice
+fn build(n: usize) -> (RollbackBuffer, Model) {
     let mut b = RollbackBuffer::new();
     let mut m = Model { m: [9; MAXN], n: 0 };
-    let n: usize = kani::any();
-    kani::assume(n <= maxn);
     let mut i = 0;
-    while i < 3 {
-        if i < n {
-            let s = any_sym();
-            b.roll_forward(mk(s));
-            m.m[m.n] = s;
-            m.n += 1;
-        }
+    while i < n {
+        let s = any_sym();
+        b.roll_forward(mk(s));
+        m.m[m.n] = s;
+        m.n += 1;
         i += 1;
     }
     (b, m)
@@ -98,124 +95,168 @@ fn model_contains(m: &Model, s: u8) -> bool {
     f
 }
 
-/// roll_back(p) from every buffer of <= 3 points
-/// bound: n in 0..=3 roll_forward of symbolic alphabet points, then roll_back(symbolic alphabet point); unwind 6
-#[kani::proof]
-#[kani::unwind(6)]
-fn c26_q_roll_back() {
-    let (mut b, mut m) = build(3);
-    same(&b, &m);
-    let s = any_sym();
-    let p = mk(s);
-    let before = Model { m: m.m, n: m.n };
-    let r = b.roll_back(&p);
-    let found = model_contains(&before, s);
-    match r {
-        RollbackEffect::Handled => {
-            assert!(found, "Handled only for a buffered point");
-            let k = b.size();
-            assert!(k >= 1 && k <= before.n, "Handled keeps a non-empty prefix");
-            assert!(before.m[k - 1] == s, "the kept prefix ends at the rollback point");
-            m.n = k;
+// roll_back(p) from every buffer of <= 3 points
+macro_rules! roll_back_fam {
+    ($name:ident, $n:expr) => {
+        #[kani::proof]
+        #[kani::unwind(6)]
+        fn $name() {
+            let (mut b, mut m) = build($n);
             same(&b, &m);
+            let s = any_sym();
+            let p = mk(s);
+            let before = Model { m: m.m, n: m.n };
+            let r = b.roll_back(&p);
+            let found = model_contains(&before, s);
+            match r {
+                RollbackEffect::Handled => {
+                    assert!(found, "Handled only for a buffered point");
+                    let k = b.size();
+                    assert!(k >= 1 && k <= before.n, "Handled keeps a non-empty prefix");
+                    assert!(before.m[k - 1] == s, "the kept prefix ends at the rollback point");
+                    m.n = k;
+                    same(&b, &m);
+                }
+                RollbackEffect::OutOfScope => {
+                    assert!(!found, "OutOfScope only for an unknown point");
+                    m.n = 0;
+                    same(&b, &m);
+                }
+            }
+            kani::cover!($n != 3 || (found && b.size() == 1), "rollback to the oldest of three");
+            kani::cover!($n != 3 || (found && b.size() == 3), "rollback to the newest of three");
+            kani::cover!(!found, "rollback to an unknown point");
+            kani::cover!($n != 3 || (found && before.m[0] == before.m[2] && before.m[0] == s), "duplicate point rolled back to");
+            core::mem::forget(b);
+            core::mem::forget(p);
         }
-        RollbackEffect::OutOfScope => {
-            assert!(!found, "OutOfScope only for an unknown point");
-            m.n = 0;
-            same(&b, &m);
-        }
-    }
-    kani::cover!(found && before.n == 3 && b.size() == 1, "rollback to the oldest of three");
-    kani::cover!(found && before.n == 3 && b.size() == 3, "rollback to the newest of three");
-    kani::cover!(!found && before.n == 3, "miss on a full buffer");
-    kani::cover!(found && before.n == 3 && before.m[0] == before.m[2] && before.m[0] == s, "duplicate point rolled back to");
-    core::mem::forget(b);
-    core::mem::forget(p);
+    };
 }
+// bound: buffer built by exactly n roll_forward calls (n = 0, 1, 2, 3 per harness) of symbolic alphabet points, then roll_back(symbolic alphabet point); unwind 6
+roll_back_fam!(c26_q_roll_back_n0, 0);
+roll_back_fam!(c26_q_roll_back_n1, 1);
+roll_back_fam!(c26_q_roll_back_n2, 2);
+roll_back_fam!(c26_q_roll_back_n3, 3);
 
-/// position(p) agrees with the model (first occurrence or None)
-/// bound: n in 0..=3 roll_forward of symbolic alphabet points, then position(symbolic alphabet point); unwind 6
-#[kani::proof]
-#[kani::unwind(6)]
-fn c26_q_position() {
-    let (b, m) = build(3);
-    let s = any_sym();
-    let p = mk(s);
-    let r = b.position(&p);
-    match r {
-        Some(k) => {
-            assert!(k < m.n && m.m[k] == s, "position points at an occurrence");
+// position(p) agrees with the model (first occurrence or None)
+macro_rules! position_fam {
+    ($name:ident, $n:expr) => {
+        #[kani::proof]
+        #[kani::unwind(6)]
+        fn $name() {
+            let (b, m) = build($n);
+            let s = any_sym();
+            let p = mk(s);
+            let r = b.position(&p);
+            match r {
+                Some(k) => {
+                    assert!(k < m.n && m.m[k] == s, "position points at an occurrence");
+                    let mut i = 0;
+                    while i < MAXN {
+                        if i < k {
+                            assert!(m.m[i] != s, "position is the first occurrence");
+                        }
+                        i += 1;
+                    }
+                }
+                None => assert!(!model_contains(&m, s), "None only for an unknown point"),
+            }
+            kani::cover!($n != 3 || r == Some(2), "found at the newest position");
+            kani::cover!(r.is_none(), "unknown point");
+            core::mem::forget(b);
+            core::mem::forget(p);
+        }
+    };
+}
+// bound: buffer built by exactly n roll_forward calls (n = 0..3 per harness) of symbolic alphabet points, then position(symbolic alphabet point); unwind 6
+position_fam!(c26_q_position_n0, 0);
+position_fam!(c26_q_position_n1, 1);
+position_fam!(c26_q_position_n2, 2);
+position_fam!(c26_q_position_n3, 3);
+
+// pop_with_depth(d): returns the oldest len-d points in order, keeps the d newest
+macro_rules! pop_fam {
+    ($name:ident, $n:expr, $d:expr) => {
+        #[kani::proof]
+        #[kani::unwind(6)]
+        fn $name() {
+            let (mut b, m) = build($n);
+            let d: usize = $d;
+            let out = b.pop_with_depth(d);
+            let ready = if m.n >= d { m.n - d } else { 0 };
+            assert!(out.len() == ready, "exactly the points deeper than d are returned");
             let mut i = 0;
             while i < MAXN {
-                if i < k {
-                    assert!(m.m[i] != s, "position is the first occurrence");
+                if i < ready {
+                    assert!(idx(&out[i]) == m.m[i], "popped points are the oldest ones, in order");
                 }
                 i += 1;
             }
+            let mut rest = Model { m: [9; MAXN], n: m.n - ready };
+            let mut i = 0;
+            while i < MAXN {
+                if i < rest.n {
+                    rest.m[i] = m.m[ready + i];
+                }
+                i += 1;
+            }
+            same(&b, &rest);
+            kani::cover!(out.len() == ready, "pop returned");
+            core::mem::forget(out);
+            core::mem::forget(b);
         }
-        None => assert!(!model_contains(&m, s), "None only for an unknown point"),
-    }
-    kani::cover!(r == Some(2), "found at the newest position");
-    kani::cover!(r.is_none() && m.n == 3, "miss on a full buffer");
-    core::mem::forget(b);
-    core::mem::forget(p);
+    };
 }
+// bound: buffer built by exactly n roll_forward calls of symbolic alphabet points, then pop_with_depth(d); n in 0..=3 and d in 0..=4 both concrete per harness (a symbolic d makes the length of the collected Vec symbolic: no verdict in 300 s even for the empty buffer); unwind 6
+pop_fam!(c26_q_pop_n0_d0, 0, 0);
+pop_fam!(c26_q_pop_n0_d1, 0, 1);
+pop_fam!(c26_q_pop_n0_d2, 0, 2);
+pop_fam!(c26_q_pop_n0_d3, 0, 3);
+pop_fam!(c26_q_pop_n0_d4, 0, 4);
+pop_fam!(c26_q_pop_n1_d0, 1, 0);
+pop_fam!(c26_q_pop_n1_d1, 1, 1);
+pop_fam!(c26_q_pop_n1_d2, 1, 2);
+pop_fam!(c26_q_pop_n1_d3, 1, 3);
+pop_fam!(c26_q_pop_n1_d4, 1, 4);
+pop_fam!(c26_q_pop_n2_d0, 2, 0);
+pop_fam!(c26_q_pop_n2_d1, 2, 1);
+pop_fam!(c26_q_pop_n2_d2, 2, 2);
+pop_fam!(c26_q_pop_n2_d3, 2, 3);
+pop_fam!(c26_q_pop_n2_d4, 2, 4);
+pop_fam!(c26_q_pop_n3_d0, 3, 0);
+pop_fam!(c26_q_pop_n3_d1, 3, 1);
+pop_fam!(c26_q_pop_n3_d2, 3, 2);
+pop_fam!(c26_q_pop_n3_d3, 3, 3);
+pop_fam!(c26_q_pop_n3_d4, 3, 4);
 
-/// pop_with_depth(d): returns the oldest len-d points in order, keeps the d newest
-/// bound: n in 0..=3 roll_forward of symbolic alphabet points, then pop_with_depth(d), d in 0..=4; unwind 6
-#[kani::proof]
-#[kani::unwind(6)]
-fn c26_q_pop_with_depth() {
-    let (mut b, m) = build(3);
-    let d: usize = kani::any();
-    kani::assume(d <= 4);
-    let out = b.pop_with_depth(d);
-    let ready = if m.n >= d { m.n - d } else { 0 };
-    assert!(out.len() == ready, "exactly the points deeper than d are returned");
-    let mut i = 0;
-    while i < MAXN {
-        if i < ready {
-            assert!(idx(&out[i]) == m.m[i], "popped points are the oldest ones, in order");
+// roll_forward appends at the back
+macro_rules! forward_fam {
+    ($name:ident, $n:expr) => {
+        #[kani::proof]
+        #[kani::unwind(6)]
+        fn $name() {
+            let (mut b, mut m) = build($n);
+            let s = any_sym();
+            b.roll_forward(mk(s));
+            m.m[m.n] = s;
+            m.n += 1;
+            same(&b, &m);
+            kani::cover!(m.n == $n + 1, "point appended");
+            core::mem::forget(b);
         }
-        i += 1;
-    }
-    let mut rest = Model { m: [9; MAXN], n: m.n - ready };
-    let mut i = 0;
-    while i < MAXN {
-        if i < rest.n {
-            rest.m[i] = m.m[ready + i];
-        }
-        i += 1;
-    }
-    same(&b, &rest);
-    kani::cover!(m.n == 3 && d == 1 && out.len() == 2, "two of three popped");
-    kani::cover!(m.n == 3 && d == 0 && out.len() == 3, "all popped");
-    kani::cover!(m.n == 2 && d == 4 && out.len() == 0, "depth beyond the buffer pops nothing");
-    core::mem::forget(out);
-    core::mem::forget(b);
+    };
 }
-
-/// roll_forward appends at the back
-/// bound: n in 0..=3 roll_forward of symbolic alphabet points, then one more roll_forward; unwind 6
-#[kani::proof]
-#[kani::unwind(6)]
-fn c26_q_roll_forward() {
-    let (mut b, mut m) = build(3);
-    let s = any_sym();
-    b.roll_forward(mk(s));
-    m.m[m.n] = s;
-    m.n += 1;
-    same(&b, &m);
-    kani::cover!(m.n == 4, "fourth point appended");
-    kani::cover!(m.n == 1, "first point appended");
-    core::mem::forget(b);
-}
+// bound: buffer built by exactly n roll_forward calls (n = 0..3 per harness) of symbolic alphabet points, then one more roll_forward; unwind 6
+forward_fam!(c26_q_roll_forward_n0, 0);
+forward_fam!(c26_q_roll_forward_n1, 1);
+forward_fam!(c26_q_roll_forward_n2, 2);
+forward_fam!(c26_q_roll_forward_n3, 3);
 
 /// vacuity twin: must come back FAILED
 #[kani::proof]
 #[kani::unwind(6)]
 fn c26_v_twin() {
-    let (mut b, m) = build(3);
+    let (mut b, m) = build(2);
     let s = any_sym();
     let p = mk(s);
     let r = b.roll_back(&p);
